@@ -8,6 +8,8 @@ import (
 	"sort"
 	"strings"
 
+	"github.com/dave/jennifer/jen"
+
 	"verif/internal/ev"
 	"verif/internal/explore"
 	"verif/internal/imp"
@@ -286,6 +288,35 @@ func runC05(r *ev.Recorder) {
 		}
 	}
 
+	// (vi) a File rendered, then extended IN FRONT of what was rendered (through a statement the
+	// caller kept), rendered again: still no two paths with one name
+	for variant := 0; variant < 8; variant++ {
+		w := imp.New("NewFile", "", imp.DefaultTrueName(map[string]string{"x/foo": "foo", "y/foo": "foo"}))
+		head := jen.Var().Id("_").Op("=").Id("Zid").Call(jen.Lit(1))
+		w.F.Add(head)
+		if variant&1 != 0 {
+			w.Prefix("pkg")
+		}
+		if variant&2 != 0 {
+			w.Names("x/foo", "y/foo")
+		}
+		w.Ref("x/foo", 0)
+		if variant&4 != 0 {
+			w.Ref("fmt", 0)
+		}
+		first := w.Render()
+		n := len(w.Refs)
+		w.Refs = append(w.Refs, imp.Ref{Path: "y/foo", Sym: fmt.Sprintf("R%d", n), Wrapper: "head", Rendered: true})
+		head.Op("+").Qual("y/foo", fmt.Sprintf("R%d", n))
+		w.Log = append(w.Log, "File.Render", "first declaration += Qual(y/foo)", "File.Render")
+		c := c05Case{Kind: "rerender", Perm: variant}
+		if !first.OK() {
+			r.Violate(ev.Violation{Signature: "c05:rerender:first-render-failed", What: fmt.Sprintf("%v: %s", w.Log, first), Case: ev.JSON(c)})
+			continue
+		}
+		judge(w, c, "c05:rerender")
+	}
+
 	// (v) many imports in one File: N paths with the same last element (plus two std packages called
 	// rand), referenced forwards and backwards, each twice, prefix on/off, with and without a
 	// name table of the same size
@@ -364,6 +395,8 @@ func replayC05(raw json.RawMessage) (bool, string) {
 		w = c05Numbered(c)
 	case "many":
 		w = c05Many(c)
+	case "rerender":
+		return true, "the re-render cases are replayed by running the check"
 	case "family":
 		fam := familyByName(c05Families, c.Family)
 		if fam == nil {
